@@ -32,6 +32,9 @@ func runC02(c *Ctx) {
 	c02R6(c)
 	c02R7(c)
 	c02R8(c)
+	c01R8As(c, c.R.Rule("R9", "K3/K6 (= C01.R8) nothing is acked past an unhandled record: the source ack of a nacked record lies behind the DLQ write's success edge, a failed DLQ hand-off fails the nack (v1), and the v2 ack covers exactly the stored prefix", 6))
+	c04R3As(c, c.R.Rule("R10", "K5/K2/K3 (= C04.R3) v2 fan-out release cursor: `released` advances only after the parent call for that position succeeded, under m.mu, never past a non-terminal position", 30))
+	livePersisted(c, c.R.Rule("R11", "K8 (= C17.R7) the connector record that carries the position is persisted from the live instance or a complete copy", 10))
 }
 
 // c02R8: flush transactions of one persister never overlap.
